@@ -192,7 +192,11 @@ func (s *Set[T]) unsafeIterator() *fun.Iterator[T] {
 // the Set's lock when called.
 func (s *Set[T]) Producer() (out fun.Producer[T]) {
 	defer s.with(s.lock())
-	defer func() { mu := s.mtx.Get(); ft.WhenDo(mu != nil, func() fun.Producer[T] { return out.WithLock(mu) }) }()
+	defer func() {
+		if mu := s.mtx.Get(); mu != nil {
+			out = out.WithLock(mu)
+		}
+	}()
 
 	if s.list != nil {
 		return s.list.Producer()
